@@ -10,6 +10,9 @@ import (
 	_ "verif/checks/c05"
 	_ "verif/checks/c07"
 	_ "verif/checks/c08"
+	_ "verif/checks/c10"
+	_ "verif/checks/c11"
+	_ "verif/checks/c14"
 	_ "verif/checks/c15"
 	_ "verif/checks/c17"
 	_ "verif/checks/c18"
